@@ -18,12 +18,13 @@ Rec == ndJsonDeserialize(IOEnv.TRACE)
 
 Obs(r) == [err |-> r.err, n |-> r.rn, buf |-> r.buf, pos |-> r.pos]
 Judge(r) ==
+    IF r.op = "print" THEN PrintOK(r) ELSE
     /\ r.panic = ""
     /\ CASE r.op = "read_to_end"    -> ReadToEndOK(Obs(r), r.init, r.data, r.script)
          [] r.op = "read_to_string" -> ReadToStringOK(Obs(r), r.init, r.data, r.script)
          [] r.op = "read_exact"     -> ReadExactOK(Obs(r), r.n, r.data, r.script)
-         [] r.op \in WriteOps       -> /\ WriteOK(Obs(r), r.data, r.pieces, r.script)
-                                       /\ WriteLogOK(Obs(r), r.data, r.calls)
+         [] r.op \in WriteOps       -> /\ WriteOK(Obs(r), r.data, r.pieces, r.script, r.ff)
+                                       /\ WriteLogOK(Obs(r), r.data, r.calls, r.ff)
 Bad == {i \in 1..Len(Rec) : ~Judge(Rec[i])}
 ASSUME PrintT(<<"JUDGED", ToJson([n |-> Len(Rec), bad |-> SetToSeq(Bad)])>>)
 
@@ -37,7 +38,7 @@ TraceProbeGrow(c, n) ==
     IF Len(calls) + 1 < Len(LC) THEN {x \in {c + n + LC[Len(calls) + 2][1]} : x >= c + n} ELSE {}
 
 CaseOf(r) == [op |-> r.op, script |-> r.script, data |-> r.data, init |-> r.init, cap0 |-> r.cap0,
-              n |-> r.n, pieces |-> r.pieces]
+              n |-> r.n, pieces |-> r.pieces, ff |-> r.ff]
 TInit == /\ line \in {i \in 1..Len(Rec) : Rec[i].panic = ""}
          /\ InitFor(CaseOf(Rec[line]))
 TNext == /\ Next
@@ -51,4 +52,9 @@ Conforms == /\ calls = LC /\ bad = {}
                THEN Len(Rec[line].buf) = case.n /\ vec = SubSeq(Rec[line].buf, 1, Len(vec))
                ELSE vec = Rec[line].buf
 Report == pc = "done" => PrintT(<<"T", line, Conforms>>)
+
+\* configuration for files that hold only "print" records (nothing to replay)
+PInit == /\ line = 0
+         /\ InitFor([op |-> "write_all", script |-> <<>>, data |-> <<>>, init |-> <<>>, cap0 |-> 0, n |-> 0, pieces |-> <<0>>, ff |-> 0])
+PNext == UNCHANGED <<vars, line>>
 =============================================================================
